@@ -667,6 +667,6 @@ META = {
              "1e-8 and pi*R are parameters.  Domain restrictions in theorems: grids that the constructor accepts (shape >= 1, "
              "resolution != 0 — proved to be exactly the accepted domain); web tiles for zoom >= 0, npix >= 1.  Not modelled: CRS "
              "equality assertion in idx_bounds (C01), geobox cache, geojson rendering."),
-    "technique": "Coq proof over hand-written Gallina model (Q arithmetic) + exact differential correspondence (vm_compute) + property predicates",
+    "technique": "Coq proof over hand-written Gallina model (Q arithmetic) + exact differential correspondence (vm_compute) + property predicates + leaf functions regenerated from source by py2v on every run and proved equal to the model (source_is_model theorem)",
     "design_ref": "DESIGN.md section 5, C14",
 }
